@@ -1,6 +1,9 @@
 package pipeline
 
 import (
+	"fmt"
+	"sort"
+
 	"github.com/buildkite/go-pipeline/ordered"
 	"github.com/buildkite/interpolate"
 )
@@ -126,7 +129,21 @@ func interpolateMapValues[K comparable, V any, M ~map[K]V](tf stringTransformer,
 // interpolateMap applies interpolateAny over both keys and values of any type
 // of map. The map is altered in-place.
 func interpolateMap[K comparable, V any, M ~map[K]V](tf stringTransformer, m M) error {
-	for k, v := range m {
+	// Interpolate into a new map, and only then replace the contents of m.
+	// Adding the renamed keys to m while ranging over it would let the range
+	// visit some of them again, interpolating those entries twice.
+	// Keys are processed in a fixed order so that the outcome is the same on
+	// every run, even if two keys interpolate to the same string.
+	keys := make([]K, 0, len(m))
+	for k := range m {
+		keys = append(keys, k)
+	}
+	sort.Slice(keys, func(i, j int) bool {
+		return fmt.Sprint(keys[i]) < fmt.Sprint(keys[j])
+	})
+
+	out := make(M, len(m))
+	for _, k := range keys {
 		// We interpolate both keys and values.
 		intk, err := interpolateAny(tf, k)
 		if err != nil {
@@ -134,16 +151,16 @@ func interpolateMap[K comparable, V any, M ~map[K]V](tf stringTransformer, m M) 
 		}
 
 		// V could be string, so be sure to replace the old value with the new.
-		intv, err := interpolateAny(tf, v)
+		intv, err := interpolateAny(tf, m[k])
 		if err != nil {
 			return err
 		}
+		out[intk] = intv
+	}
 
-		// If the key changed due to interpolation, delete the old key.
-		if k != intk {
-			delete(m, k)
-		}
-		m[intk] = intv
+	clear(m)
+	for k, v := range out {
+		m[k] = v
 	}
 	return nil
 }
